@@ -150,3 +150,65 @@ def r02_3(ctx, rr):
     tab = load_table("select_siblings.json")
     compare_siblings(ctx, rr, SELECT_FNS, "select_unchecked", tab.get("select_unchecked", []))
     compare_siblings(ctx, rr, NEW_FNS, "constructor", tab.get("constructor", []))
+
+
+@rule("R02.4", props=["C02"], floor=6, title="Select9: every read of the subinventory is relative to the subinventory start of the inventory entry; writer and reader use the same start")
+def r02_4(ctx, rr):
+    F = ctx.F()
+    b = F.one(r"^<rank_sel::select9::Select9<rank_sel::rank9::Rank9<B, C>, I> as traits::rank_sel::SelectUnchecked>::select_unchecked$")
+    slf = ("var", "self", b.params[0]["id"])
+    sub = ("field", slf, "subinventory")
+    state = {"pos": None}
+    reads = []
+
+    def on_node(W, n, K):
+        if W.debug_depth:
+            return
+        if n.get("k") == "LetStmt":
+            return
+        if n.get("k") == "MethodCall" and n["name"] == "get_unchecked":
+            base = W.T.term(n["recv"])
+            if base == sub:
+                reads.append((n, W.expand(W.T.term(n["args"][0])), W))
+    W = Walker(F, b, on_node=on_node)
+    # capture the value of `subinv_pos` when it is bound
+    orig_bind = W.bind_pat
+
+    def bind(p, term, K, mutable_ok=True):
+        if p.get("k") == "PBind" and p.get("name") == "subinv_pos" and term is not None:
+            state["pos"] = term
+        return orig_bind(p, term, K)
+    W.bind_pat = bind
+    W.run()
+    if state["pos"] is None:
+        raise AnchorMissing("Select9::select_unchecked: no `subinv_pos` binding")
+    pos = W.expand(state["pos"])
+    # subinv_pos == (inventory[left] / 64) / 4
+    rr.instances += 1
+    ok = pos[0] == "op" and pos[1] == "/" and pos[3] == ("int", 4) and pos[2][0] == "op" and pos[2][1] == "/" and pos[2][3] == ("int", 64)
+    rr.check(ok, "Select9::select_unchecked:subinv_pos", "subinv_pos must be (inventory[i] / 64) / 4, the writer's subinv_start; found %s" % tshow(pos)[:160], b.span)
+    if len(reads) < 6:
+        raise AnchorMissing("Select9::select_unchecked: expected at least 6 reads of the subinventory, found %d" % len(reads))
+    for n, t, Wk in reads:
+        rr.instances += 1
+        rel = mentions(t, lambda x: x == pos)
+        key = "Select9::select_unchecked:subinventory-read-relative"
+        rr.ob(rel, key=key + str(rel), sample={"read": show(F, n)[:120], "index": tshow(t)[:160]})
+        if not rel:
+            rr.violate(key, "Select9::select_unchecked reads the subinventory at `%s`, which is not relative to the entry's subinventory start `subinv_pos`: entries other than the first read the wrong words" % tshow(t)[:200], F.loc(n))
+    # writer: subinv_start == (inventory[idx] / 64) / u64_per_subinventory (= 4) and all writes go through subinv_start
+    nb = F.one(r"^rank_sel::select9::Select9::<rank_sel::rank9::Rank9<B, C>>::new$")
+    writes = []
+
+    def on_new(Wk, n, K):
+        if Wk.debug_depth:
+            return
+        if n.get("k") == "Index" and show(F, n["e"]) == "subinventory":
+            writes.append((n, Wk.expand(Wk.T.term(n["i"]))))
+    Walker(F, nb, on_node=on_new).run()
+    if len(writes) < 3:
+        raise AnchorMissing("Select9::new: expected at least 3 indexed accesses to the subinventory")
+    for n, t in writes:
+        rr.instances += 1
+        okw = mentions(t, lambda x: x[0] == "op" and x[1] == "/" and x[3] == ("int", 4) and x[2][0] == "op" and x[2][1] == "/" and x[2][3] == ("int", 64))
+        rr.check(okw, "Select9::new:subinventory-write-relative", "Select9::new addresses the subinventory at `%s`, not relative to (inventory[i] / 64) / 4" % tshow(t)[:200], F.loc(n))
